@@ -201,6 +201,16 @@ W_PEEK = W('peek', 'peek', dict(n=PInt()), requires=['n >= 0'], raw_mode='comple
     ('position-unchanged', '%s == %s' % (P_ABS, P_ABS_OLD))],
     calls={'self.read': CallContract(W_READ, params=['n'])}, external=['data', 'position-unchanged'])
 
+import copy as _copy_w
+from pyvc.core import POpt as _POpt
+_W_READ_NB = _copy_w.copy(W_READ)              # the same contract seen from a caller: the answer may be None
+_W_READ_NB.returns = _POpt(PBytes())
+# ... over a non-blocking source: "nothing at the moment" (None) is passed on, the position stays (C11; TypeError before 8a967c8)
+W_PEEK_NB = W('peek[non-blocking]', 'peek', dict(n=PInt()), requires=['n >= 0'], raw_mode='partial', ensures=[
+    ('data-or-nothing', 'result is None or result == X.sub(self._raw.data, %s, %s + len(result))' % (P_ABS_OLD, P_ABS_OLD)),
+    ('position-unchanged', '%s == %s' % (P_ABS, P_ABS_OLD))],
+    calls={'self.read': CallContract(_W_READ_NB, params=['n'])}, external=['data-or-nothing', 'position-unchanged'])
+
 W_TELL = W('tell', 'tell', {}, ensures=[('is-cache-position', 'result == self._cache.pos'),
                                         ('pure', '%s == %s' % (P_ABS, P_ABS_OLD))], external=['pure'])
 
@@ -261,7 +271,7 @@ PEEK_WITHPEEK = Contract(
 )
 
 CONTRACTS = [READ_COMPLETE, READ_PARTIAL, IS_EOS_BYTESIO, IS_EOS_GENERIC, PEEK_NOPEEK, PEEK_WITHPEEK,
-             W_READ, W_PEEK, W_TELL, W_SEEK, W_SEEK_CUR, W_MARK_SET]
+             W_READ, W_PEEK, W_PEEK_NB, W_TELL, W_SEEK, W_SEEK_CUR, W_MARK_SET]
 
 
 
